@@ -756,6 +756,16 @@ impl<T: ArrayValue> Array<T> {
     }
     /// `drop` from this array
     pub fn drop(mut self, index: &[Result<isize, bool>], env: &Uiua) -> UiuaResult<Self> {
+        // The index must not have more axes than the array,
+        // even if the drop leaves nothing
+        let rank = self.rank().max(1);
+        if index.len() > rank {
+            return Err(env.error(format!(
+                "Cannot drop from rank {} array with index of length {}",
+                rank,
+                index.len()
+            )));
+        }
         if self.shape.iter().zip(index).any(|(d, i)| match i {
             Ok(i) => *d <= i.unsigned_abs(),
             Err(_) => true,
